@@ -64,6 +64,20 @@ def c07 (args res : List String) : Verdict :=
       else if r ≠ model then vDiff "encode" model tag
       else vOk tag
     | _, _ => vBad (joinToks args)
+  | ["snd", nS, lenS, _] =>
+    -- the stream a slow reader receives from `send_msg` on a real socket: the concatenation of the encodings
+    match nS.toNat?, lenS.toNat? with
+    | some n, some len =>
+      let block (k : Nat) : Bytes := (List.range len).map fun j => ((k * 31 + j * 7 + 3) % 251).toUInt8
+      let stream : Bytes := (List.range n).flatMap fun k => encode (.piece k 0 (block k)) ++ encode (.haveP k)
+      let fnv : Nat := stream.foldl (fun h b => ((h ^^^ b.toNat) * 0x100000001b3) % 18446744073709551616) 0xcbf29ce484222325
+      let hexd := String.ofList ((Nat.toDigits 16 fnv))
+      let pad := String.ofList (List.replicate (16 - hexd.length) '0') ++ hexd
+      let model := [s!"len={stream.length}", s!"fnv={pad}"]
+      if res = ["P"] then vProp "T1-send-panics" "snd"
+      else if res ≠ model then vProp "T1-emitted-stream-is-not-the-concatenation-of-the-encodings" "snd"
+      else vOk "snd"
+    | _, _ => vBad (joinToks args)
   | ["rt", m, rest] =>
     -- round trip: impl parsed `data(m) ++ rest`; res = impl parse outcome
     match msgOfToks (m.splitOn ","), parseHex rest with
